@@ -124,7 +124,7 @@ def run(ctx):
         else:
             L = rng.integers(4, 40, 3)
             tilt = [int(rng.integers(-L[0], L[0] + 1)) if rng.random() < .7 else 0 for _ in range(3)]
-            thin = bool(rng.random() < .3)
+            thin = bool(rng.random() < .45)
             if thin:      # thin cell whose tilt nearly equals lx: b - a is shorter than a and b
                 L[1] = int(rng.integers(2, 6))
                 tilt[0] = int(L[0] - rng.integers(0, 3))
@@ -150,8 +150,10 @@ def run(ctx):
         spread = (0, 1) if rng.random() < .6 else (-2, 3)
         P0 = ptsrel(npair, *spread)
         P1 = ptsrel(npair, *spread)
-        if rng.random() < .35:          # close pairs: the direct separation is short, a lattice image may still be shorter in a tilted cell
-            P1 = P0 + rng.integers(-6, 7, P0.shape)
+        # close pairs in every cell (a third of the rows): the direct separation is short, a lattice image may still be shorter in a
+        # strongly tilted cell
+        ncl = npair // 3
+        P1[:ncl] = P0[:ncl] + rng.integers(-6, 7, (ncl, 3))
         f0, f1 = P0 / Q, P1 / Q
         tag = 'cell%d' % ci
         try:
